@@ -392,15 +392,29 @@ func (w *world) askOp(kind, args, want string, post snap, relevant map[int]bool)
 				front = append(front, a)
 			}
 		}
-		for rot := 0; rot <= len(front); rot++ {
-			p := append(append(append([]int{}, front[rot:]...), front[:rot]...), back...)
-			for _, rank := range []string{"-", rank1, rank2} {
-				for _, c4 := range [][2][]int{{p, p}, {base, p}, {p, base}} {
-					if ans, ok := try4(c4[0], base, base, c4[1], rank); ok {
-						w.c.Count("oracle-search/stale-owner-last")
-						return ans, true
+		// every order inside the group of stale owners (small), every rotation of the others in front of it
+		bidx := make([]int, len(back))
+		for i := range bidx {
+			bidx[i] = i
+		}
+		for len(back) <= 4 {
+			bk := make([]int, len(back))
+			for i, j := range bidx {
+				bk[i] = back[j]
+			}
+			for rot := 0; rot <= len(front); rot++ {
+				p := append(append(append([]int{}, front[rot:]...), front[:rot]...), bk...)
+				for _, rank := range []string{"-", rank1, rank2} {
+					for _, c4 := range [][2][]int{{p, p}, {base, p}, {p, base}} {
+						if ans, ok := try4(c4[0], base, base, c4[1], rank); ok {
+							w.c.Count("oracle-search/stale-owner-last")
+							return ans, true
+						}
 					}
 				}
+			}
+			if !nextPerm(bidx) {
+				break
 			}
 		}
 	}
@@ -1520,6 +1534,22 @@ func directedSlots(variant string) func(w *world) []sop {
 	}
 }
 
+// directedRequeue: known finding removetx-requeue-exceeds-queue-limits (tiny limits).  A alone has pending nonces
+// 0..3, nonce 0 is cheap.  SetGasPrice above its price: removeTx drops nonce 0 and re-queues its successors 1,2,3
+// without a cap, and SetGasPrice is not followed by promoteExecutables: 3 queued > AccountQueue 2.
+func directedRequeue(w *world) []sop {
+	mk := func(nonce uint64, price int64) *mtx {
+		return w.mkTx(0, nonce, w.uniquePrice(price), 21000, big.NewInt(100), nil, false)
+	}
+	return []sop{
+		{kind: "add", class: "directed/requeue", t: mk(0, 5)}, {kind: "add", class: "directed/requeue", t: mk(1, 100)},
+		{kind: "add", class: "directed/requeue", t: mk(2, 101)}, {kind: "add", class: "directed/requeue", t: mk(3, 102)},
+		{kind: "gasprice", class: "directed/requeue-evict-first", price: 50},
+		{kind: "gasprice", class: "directed/requeue", price: 1},
+		{kind: "add", class: "directed/requeue-next", next: true, from: 0, price: 200},
+	}
+}
+
 // ---------------------------------------------------------------- concurrent variant (direct oracle only)
 
 func (w *world) runConcurrent(pc poolCfg) {
@@ -1639,6 +1669,8 @@ func main() {
 		w.runHistory(poolCfg{name: "default", as: 16, gs: 4096, aq: 64, gq: 1024, bump: 10, nsenders: 2, gp: 1,
 			st: []acct{{0, big.NewInt(100000000)}, {0, big.NewInt(100000000)}}, script: directedCaps(k)})
 	}
+	w.runHistory(poolCfg{name: "tiny", as: 2, gs: 4, aq: 2, gq: 4, bump: 10, nsenders: 2, gp: 1,
+		st: []acct{{0, big.NewInt(1000000000)}, {0, big.NewInt(1000000000)}}, script: directedRequeue})
 	for _, v := range []string{"equalize", "min"} {
 		w.runHistory(poolCfg{name: "slots", as: 1, gs: 4, aq: 3, gq: 6, bump: 10, nsenders: 3, gp: 1,
 			st: []acct{{0, big.NewInt(1000000000)}, {0, big.NewInt(1000000000)}, {0, big.NewInt(1000000000)}}, script: directedSlots(v)})
